@@ -282,10 +282,10 @@ func init() {
 			"oracles use the timestamp stored in the PDU, never the wall clock",
 		},
 		Stages: []*fw.Stage{
-			{Name: "random", N: q(150000, 6000000), Run: func(c *fw.Case) { c15Case(c, false) }},
-			{Name: "zero-octet-digests", N: q(30000, 600000), Run: func(c *fw.Case) { c15Case(c, true) }},
+			{Name: "random", N: q(150000, 100000000), Run: func(c *fw.Case) { c15Case(c, false) }},
+			{Name: "zero-octet-digests", N: q(30000, 10000000), Run: func(c *fw.Case) { c15Case(c, true) }},
 			{
-				Name: "constructors", N: q(600, 20000),
+				Name: "constructors", N: q(600, 500000),
 				Run: func(c *fw.Case) {
 					acct := string(nonNulASCII(c.R, c.R.Range(0, 6)))
 					sec := string(nonNulASCII(c.R, c.R.Range(0, 20)))
